@@ -1,0 +1,77 @@
+//go:build verif
+
+package utreexo
+
+// This file is only compiled with the build tag "verif". It exposes unexported
+// functions to the external verification harness. It adds no behaviour.
+
+func VerifRootPosition(leaves uint64, h, forestRows uint8) uint64 {
+	return rootPosition(leaves, h, forestRows)
+}
+func VerifIsRootPosition(position, numLeaves uint64) bool { return isRootPosition(position, numLeaves) }
+func VerifIsRootPositionOnRow(position, numLeaves uint64, row uint8) bool {
+	return isRootPositionOnRow(position, numLeaves, row)
+}
+func VerifIsRootPositionTotalRows(position, numLeaves uint64, totalRows uint8) bool {
+	return isRootPositionTotalRows(position, numLeaves, totalRows)
+}
+func VerifIsRootPositionOnRowTotalRows(position, numLeaves uint64, row, forestRows uint8) bool {
+	return isRootPositionOnRowTotalRows(position, numLeaves, row, forestRows)
+}
+func VerifIsAncestor(higherPos, lowerPos uint64, forestRows uint8) bool {
+	return isAncestor(higherPos, lowerPos, forestRows)
+}
+func VerifRemoveBit(val, bit uint64) uint64          { return removeBit(val, bit) }
+func VerifAddBit(val, place uint64, bit bool) uint64 { return addBit(val, place, bit) }
+func VerifCalcNextPosition(position, delPos uint64, forestRows uint8) (uint64, error) {
+	return calcNextPosition(position, delPos, forestRows)
+}
+func VerifCalcPrevPosition(position, delPos uint64, forestRows uint8) uint64 {
+	return calcPrevPosition(position, delPos, forestRows)
+}
+func VerifInForest(pos, numLeaves uint64, forestRows uint8) bool {
+	return inForest(pos, numLeaves, forestRows)
+}
+func VerifDeTwin(dels []uint64, forestRows uint8) []uint64 { return deTwin(dels, forestRows) }
+func VerifProofPosition(target, numLeaves uint64, totalRows uint8) []uint64 {
+	return proofPosition(target, numLeaves, totalRows)
+}
+func VerifMaxPositionAtRow(row, forestRows uint8, numLeaves uint64) (uint64, error) {
+	return maxPositionAtRow(row, forestRows, numLeaves)
+}
+func VerifMaxPossiblePosAtRow(row, totalRows uint8) uint64 {
+	return maxPossiblePosAtRow(row, totalRows)
+}
+func VerifStartPositionAtRow(row, forestRows uint8) uint64 {
+	return startPositionAtRow(row, forestRows)
+}
+func VerifTranslatePos(pos uint64, from, to uint8) uint64 { return translatePos(pos, from, to) }
+func VerifSibling(pos uint64) uint64                      { return sibling(pos) }
+func VerifLeftSib(pos uint64) uint64                      { return leftSib(pos) }
+func VerifRightSib(pos uint64) uint64                     { return rightSib(pos) }
+func VerifNumRoots(n uint64) uint8                        { return numRoots(n) }
+func VerifRootExistsOnRow(n uint64, h uint8) bool         { return rootExistsOnRow(n, h) }
+func VerifMaxPosition(forestRows uint8) uint64            { return maxPosition(forestRows) }
+func VerifMaxLeafCount(forestRows uint8) uint64           { return maxLeafCount(forestRows) }
+func VerifParentHash(l, r Hash) Hash                      { return parentHash(l, r) }
+
+// VerifCalculateHashes exposes calculateHashes: positions, hashes, root candidates.
+func VerifCalculateHashes(numLeaves uint64, delHashes []Hash, proof Proof) ([]uint64, []Hash, []Hash, error) {
+	hnp, roots, err := calculateHashes(numLeaves, delHashes, proof)
+	return hnp.positions, hnp.hashes, roots, err
+}
+
+// VerifPollardCounts exposes the size of the leaf map of a Pollard.
+func VerifPollardCounts(p *Pollard) (int, uint64) { return len(p.NodeMap), p.NumDels }
+
+// VerifTTLs exposes the (created, ttl) pairs genTTLs computed for every block.
+func VerifTTLs(cs *CachingScheduleTracker) [][][2]uint64 {
+	cs.genTTLs()
+	out := make([][][2]uint64, len(cs.ttls))
+	for i, blk := range cs.ttls {
+		for _, t := range blk {
+			out[i] = append(out[i], [2]uint64{t.pos, uint64(t.ttl)})
+		}
+	}
+	return out
+}
